@@ -127,8 +127,8 @@ EncJson(ty, v) ==
   CASE ty = "side" -> Q(v) [] ty = "tif" -> TifJson(v) [] ty = "peg" -> Q(v) [] ty = "id" -> Q(v)
     [] ty = "order" -> OrderJson(v) [] ty = "update" -> UpdateJson(v) [] ty = "tx" -> TxJson(v)
     [] ty = "mres" -> MresJson(v) [] ty = "stats" -> StatsJson(v) [] ty = "level" -> LevelJson(v)
-    [] ty = "snap" -> LevelJson(v) [] ty = "pkg" -> PkgJson(v) [] ty = "status" -> Q(v)
-HasJson(ty) == ty \in {"side", "tif", "peg", "id", "order", "update", "tx", "mres", "stats", "level", "snap", "pkg", "status"}
+    [] ty \in {"snap", "snapseq"} -> LevelJson(v) [] ty \in {"pkg", "pkgseq"} -> PkgJson(v) [] ty = "status" -> Q(v)
+HasJson(ty) == ty \in {"side", "tif", "peg", "id", "order", "update", "tx", "mres", "stats", "level", "snap", "pkg", "snapseq", "pkgseq"}
 \* level-like values whose order listing may come back in another order (ties in timestamps / map order)
 SetLike(ty) == ty \in {"level", "queue"}
 
